@@ -339,7 +339,7 @@ func (m *mutator) edit() bool {
 	if len(ts) == 0 {
 		return false
 	}
-	kind := []int{0, 0, 0, 1, 1, 1, 2, 2, 2, 2, 2, 2, 3, 4, 5, 6, 7, 8, 8, 9, 9, 10, 10, 11, 12, 12, 13, 13, 14, 15, 15, 16, 16}[m.pick("edit", 33)]
+	kind := []int{0, 0, 0, 1, 1, 1, 2, 2, 2, 2, 2, 2, 3, 4, 5, 6, 7, 8, 8, 9, 9, 10, 10, 11, 12, 12, 13, 13, 14, 15, 15, 16, 16, 17, 17}[m.pick("edit", 35)]
 	switch kind {
 	case 0: // integer operand -> hostile constant
 		var idx []int
@@ -534,6 +534,14 @@ func (m *mutator) edit() bool {
 		m.data = out
 		m.edits = append(m.edits, label)
 		m.forceRepair, m.appendRepair = true, true
+	case 17: // /FirstChar, /LastChar, /Widths of a simple font made inconsistent
+		out, label := tamperWidths(m.data, m.rnd)
+		if out == nil {
+			return false
+		}
+		m.data = out
+		m.edits = append(m.edits, label)
+		m.forceRepair = true
 	case 14: // junk before the header
 		out, label := addPreamble(m.data, m.rnd)
 		if out == nil {
